@@ -81,6 +81,8 @@ Section Inv.
     match p with WLoop _ _ l | WInvoke _ _ _ l | WInCb _ _ _ l => l | _ => [] end.
   Definition wid (p : pc) : option (nat * D) :=
     match p with WLoop id d _ | WInvoke id d _ _ | WInCb id d _ _ => Some (id, d) | _ => None end.
+  Definition w_holds (p : pc) (c : nat) : Prop :=
+    match p with WInvoke _ _ c' _ | WInCb _ _ c' _ => c' = c | _ => False end.
   Definition initpart (b : cb) : list D := if gotinit b then [initD (initv b)] else [].
 
   Record Inv (s0 : S) (s : state) : Prop := mkInv {
@@ -126,7 +128,9 @@ Section Inv.
     i_noinit2 : forall t c b, thr s t = SUnlock c -> cbs s c = Some b -> gotinit b = false -> initv b = zero;
     i_sincb : forall t c b, thr s t = SInCb c -> cbs s c = Some b -> gotinit b = true;
     i_alive : forall c b, cbs s c = Some b ->
-              In c (reg s) \/ unsubd b = true \/ exists t, thr s t = UMark c
+              In c (reg s) \/ unsubd b = true \/ exists t, thr s t = UMark c;
+    i_ret : forall c b, cbs s c = Some b -> returned b = false -> exec b <> None;
+    i_wret : forall t c b, w_holds (thr s t) c -> cbs s c = Some b -> returned b = true
   }.
 
   Lemma inv_init s0 : Inv s0 (init S D W R s0).
@@ -197,7 +201,7 @@ Section Inv.
         lazymatch goal with | _ : mark c b |- _ => fail | _ => idtac end;
         assert (mark c b) by constructor;
         pose proof (i_lu _ _ I _ _ H); pose proof (i_shape _ _ I _ _ H); pose proof (i_flags _ _ I _ _ H);
-        pose proof (i_incb _ _ I _ _ H)
+        pose proof (i_incb _ _ I _ _ H); pose proof (i_ret _ _ I _ _ H)
     end;
     repeat match goal with
     | H : cbs _ ?c = Some ?b, H0 : exec ?b = Some ?t |- _ =>
@@ -261,7 +265,9 @@ Section Inv.
       let Hx := fresh "Hx" in
       destruct (i_alive _ _ I _ _ H) as [|[|Hx]]; auto; right; right;
       apply (ex_thr_frame (fun p => p = UMark c) _ t _ Hx); rewrite ?Ht; simpl; try congruence end.
-  Ltac start I t Ht := sat I t Ht; pose proof I as J; destruct J; constructor; simpl; intros; auto.
+  Ltac start0 I t Ht := sat I t Ht; pose proof I as J; destruct J.
+  Ltac start1 := constructor; simpl; intros; auto.
+  Ltac start I t Ht := start0 I t Ht; start1.
   Ltac c_live2 I t c Ht :=
     csplit c; inj; simpl;
     match goal with Hp : forall t0, ~ In ?c0 (pend_of (updf _ t ?p' t0)) |- _ =>
@@ -269,6 +275,57 @@ Section Inv.
             | eapply (i_live _ _ I); eauto;
               apply (all_thr_frame (fun q => In c0 (pend_of q)) _ t p' Hp); rewrite ?Ht; simpl; tauto ] end.
   Ltac rest I t Ht := try solve [c_live I t Ht]; try solve [c_incb I t Ht]; try solve [c_alive I t Ht].
+
+  Lemma wid_holds_ord (q : pc) x : wid q = Some x -> holds_ord q.
+  Proof. destruct q; simpl; intros; auto; discriminate. Qed.
+
+  (* another thread with a writer id would hold ord as well *)
+  Ltac wid_other I Fo :=
+    match goal with H : wid (thr _ ?t0) = Some _ |- _ =>
+      exfalso; apply wid_holds_ord in H; apply (i_ord _ _ I) in H; congruence end.
+  Ltac c_alive2 I t Ht :=
+    match goal with H : cbs _ ?cc = Some ?bb |- In ?cc _ \/ _ \/ _ =>
+      let Hx := fresh "Hx" in
+      destruct (i_alive _ _ I _ _ H) as [|[|Hx]]; auto; right; right;
+      apply (ex_thr_frame (fun q => q = UMark cc) _ t _ Hx); rewrite ?Ht; simpl; try congruence end.
+  Ltac c_incb_other I t Ht :=
+    match goal with H : cbs _ ?c = Some ?b |- incb ?b <= 1 /\ _ =>
+      let Hx := fresh "Hx" in
+      destruct (i_incb _ _ I _ _ H) as (?&?&Hx); repeat split; auto;
+      let t1 := fresh "t1" in intros t1 ? ?; specialize (Hx t1); tsplit t; fwd I; fin Ht end.
+
+  Lemma pend_holds_ord (q : pc) c : In c (pend_of q) -> holds_ord q.
+  Proof. destruct q; simpl; intros; auto. Qed.
+  Ltac pend_other I Fo :=
+    match goal with H : In _ (pend_of (thr _ ?t0)) |- _ =>
+      exfalso; apply pend_holds_ord in H; apply (i_ord _ _ I) in H; congruence end.
+  (* another thread at a pc that holds the execution lock of c, while we hold it *)
+  Ltac excl I Hc Fe2 :=
+    exfalso;
+    match goal with H : thr _ ?t0 = _ |- _ =>
+      let X := fresh "X" in let Y := fresh "Y" in
+      destruct (i_exec _ _ I t0 _ ltac:(rewrite H; simpl; reflexivity)) as (?&X&Y&?);
+      rewrite Hc in X; injection X as <-; congruence end.
+
+  (* a step of a thread that is not a writer in its loop and leaves lastUpdate alone *)
+  Ltac c_wid_same I t c Ht :=
+    match goal with H : wid (updf _ t _ ?t0) = Some _ |- _ =>
+      tsplit t; [simpl in *; discriminate|];
+      let Fh := fresh "Fh" in let Fx := fresh "Fx" in
+      destruct (i_wid _ _ I _ _ _ H) as [Fh Fx]; split; auto;
+      destruct Fx as [|[? Fx]]; auto; right; split; auto;
+      let c1 := fresh "c1" in let b1 := fresh "b1" in
+      intros c1 b1 ? ?; csplit c; inj; simpl; eauto end.
+
+  Ltac c_ret I t c Ht Hc :=
+    csplit c; inj; simpl in *;
+    first [ discriminate | congruence | solve [eauto]
+          | (exfalso; pose proof (i_wret _ _ I t c _ ltac:(rewrite Ht; simpl; reflexivity) Hc); congruence) ].
+  Ltac c_wret I t c Ht Hc :=
+    tsplit t; csplit c; inj; simpl in *;
+    first [ solve [eauto] | contradiction | congruence
+          | (pose proof (i_wret _ _ I t c _ ltac:(rewrite Ht; simpl; reflexivity) Hc); congruence)
+          | solve [eapply (i_wret _ _ I); eauto] ].
 
   Lemma pres_skip s0 s r : Inv s0 s -> Inv s0 (add_ret S D W R s r).
   Proof. intros []. constructor; simpl; auto. Qed.
@@ -347,27 +404,296 @@ Section Inv.
     intros I Ht Hc He Hr.
     assert (Hu : unsubd b = false) by (unfold refuses in Hr; apply orb_false_iff in Hr; tauto).
     start I t Ht.
-    all: try solve [go I Ht t c]. all: rest I t Ht.
+    all: try solve [go I Ht t c]. all: try solve [c_ret I t c Ht Hc]. all: try solve [c_wret I t c Ht Hc]. all: rest I t Ht.
     all: try solve [c_live2 I t c Ht].
-    Show.
-  Abort.
+    - (* wid *) tsplit t; [|wid_other I Fo]. simpl in *. inj. destruct Fw as [Fh Fw]. split; auto.
+      destruct Fw as [|[? Fw]]; auto. right. split; auto. intros c0 b0 Hin Hb.
+      inversion Fn; subst. csplit c; [contradiction|]. eapply Fw; eauto.
+    - (* incb *) csplit c; inj; [|c_incb_other I t Ht].
+      destruct (i_incb0 _ _ Hc) as (?&Hz&?). simpl. repeat split; auto; try congruence.
+      intros t1 E. inj. rewrite (Hz He). discriminate.
+    - csplit c; inj; simpl; c_alive2 I t Ht.
+    - (* wret *) tsplit t; simpl in *.
+      + subst. rewrite ?updf_same in *. inj. simpl. destruct (returned b) eqn:E; auto. exfalso. eapply i_ret0; eauto.
+      + csplit c; inj; simpl; eauto.
+  Qed.
 
   (* Invoke(...) entered by a writer *)
   Lemma pres_w_begin s0 s t id d c p b :
     Inv s0 s -> thr s t = WInvoke id d c p -> cbs s c = Some b ->
     Inv s0 (set_thr S D W R (set_cb S D W R s c (cb_begin S D b d false)) t (WInCb id d c p)).
   Proof.
-    intros I Ht Hc. start I t Ht.
-    all: try solve [go I Ht t c]. all: rest I t Ht. all: try solve [c_live2 I t c Ht].
-    Show.
-  Abort.
+    intros I Ht Hc. start0 I t Ht. rewrite Hc in Fe1; injection Fe1 as <-.
+    assert (Hpend : regat b + ndel b + 1 = length (hist s)).
+    { destruct (Fp c (or_introl eq_refl)) as (?&E&?). rewrite Hc in E; inj. auto. }
+    destruct Fw as [[h Fh] Fw].
+    assert (Hnc : ~ In c p) by (inversion Fn; auto).
+    destruct (i_incb0 _ _ Hc) as (Hle&_&Hin).
+    assert (Hz : incb b = 0).
+    { destruct (Nat.eq_dec (incb b) 1) as [E|]; [|lia]. specialize (Hin _ Fe2 E). rewrite Ht in Hin. simpl in Hin. contradiction. }
+    destruct (i_flags0 _ _ Hc) as (Hov&Hla&Hur&Hrt).
+    destruct (i_shape0 _ _ Hc) as (Hlog&Hlen&Hiv).
+    start1.
+    all: try solve [go I Ht t c]. all: try solve [c_ret I t c Ht Hc]. all: try solve [c_wret I t c Ht Hc].
+    - (* shape *) csplit c; inj; [|eauto]. unfold initpart, cb_begin; cbn [log ndel regat gotinit initv]. rewrite orb_false_r.
+      fold (initpart b). rewrite Fh in *. rewrite seg_snoc by (rewrite app_length in Hpend; simpl in Hpend; lia).
+      rewrite app_assoc. rewrite <- Hlog. repeat split; auto. lia.
+    - (* pend *) tsplit t; [|pend_other I Fo]. simpl in *. csplit c; [contradiction|]. apply Fp; auto.
+    - (* live *) csplit c; inj; simpl; [lia|].
+      eapply i_live0; eauto.
+      apply (all_thr_frame (fun q => In c0 (pend_of q)) _ t _ H1). rewrite Ht. simpl. intuition congruence.
+    - tsplit t; simpl; auto. inversion Fn; auto.
+    - (* wid *) tsplit t; [|wid_other I Fo]. simpl in *. inj. split; [eauto|].
+      destruct Fw as [|[? Fw]]; auto. right. split; auto. intros c0 b0 Hin0 Hb.
+      csplit c; [contradiction|]. eapply Fw; eauto.
+    - (* incb *) csplit c; inj; [|c_incb_other I t Ht]. simpl. repeat split; try lia; try congruence.
+      intros t1 E _. rewrite Fe2 in E; inj. rewrite updf_same. simpl. auto.
+    - (* flags *) csplit c; inj; [|eauto]. simpl. rewrite Hov, Hla, Hz. simpl.
+      destruct (unsub_ret b) eqn:E; auto. specialize (Hur eq_refl). congruence.
+    - (* sinit *) tsplit t; [discriminate|]. csplit c; [excl I Hc Fe2|]. eauto.
+    - (* noinit1 *) csplit c; inj; [|eauto]. simpl in *. rewrite orb_false_r in *. eauto.
+    - (* noinit2 *) tsplit t; [discriminate|]. csplit c; [excl I Hc Fe2|]. eauto.
+    - (* sincb *) tsplit t; [discriminate|]. csplit c; [excl I Hc Fe2|]. eauto.
+    - csplit c; inj; simpl; c_alive2 I t Ht.
+  Qed.
 
   Lemma pres_w_cb_end s0 s t id d c p b :
     Inv s0 s -> thr s t = WInCb id d c p -> cbs s c = Some b ->
     Inv s0 (set_thr S D W R (set_cb S D W R s c (cb_end_unlock S D b)) t (WLoop id d p)).
   Proof.
+    intros I Ht Hc. start0 I t Ht. rewrite Hc in Fe1; injection Fe1 as <-. start1.
+    all: try solve [go I Ht t c]. all: try solve [c_ret I t c Ht Hc]. all: try solve [c_wret I t c Ht Hc]. all: rest I t Ht. all: try solve [c_live2 I t c Ht].
+    - (* wid *) tsplit t; [|wid_other I Fo]. simpl in *. inj. destruct Fw as [Fh Fw]. split; auto.
+      destruct Fw as [|[? Fw]]; auto. right. split; auto. intros c0 b0 Hin Hb.
+      csplit c; inj; simpl; eauto.
+    - (* incb *) csplit c; inj; [|c_incb_other I t Ht].
+      destruct (i_incb0 _ _ Hc) as (?&?&?). simpl. repeat split; try lia; try congruence.
+    - csplit c; inj; simpl; c_alive2 I t Ht.
+  Qed.
+
+  (* SInit, no initial callback: straight to the deferred unlock *)
+  Lemma pres_s_noinit s0 s t c trig cur b :
+    Inv s0 s -> thr s t = SInit c trig cur -> cbs s c = Some b -> nonzero cur || trig = false ->
+    Inv s0 (set_thr S D W R s t (SUnlock c)).
+  Proof.
+    intros I Ht Hc Hn. start0 I t Ht. rewrite Hc in Fe1; injection Fe1 as <-.
+    rewrite Hc in Fi1; injection Fi1 as <-. start1.
+    all: try solve [go I Ht t c]. all: rest I t Ht.
+    - (* noinit2 *) tsplit t; [|eauto]. injection H as <-. rewrite Hc in H0; injection H0 as <-.
+      apply orb_false_iff in Hn as [Hn _]. apply nonzero_zero in Hn. congruence.
+  Qed.
+
+  Lemma pres_s_begin s0 s t c trig cur b :
+    Inv s0 s -> thr s t = SInit c trig cur -> cbs s c = Some b ->
+    Inv s0 (set_thr S D W R (set_cb S D W R s c (cb_begin S D b (initD cur) true)) t (SInCb c)).
+  Proof.
+    intros I Ht Hc. start0 I t Ht. rewrite Hc in Fe1; injection Fe1 as <-.
+    rewrite Hc in Fi1; injection Fi1 as <-. start1.
+    all: try solve [go I Ht t c]. all: try solve [c_ret I t c Ht Hc]. all: try solve [c_wret I t c Ht Hc]. all: rest I t Ht. all: try solve [c_live2 I t c Ht].
+    - (* shape *) csplit c; inj; [|eauto]. destruct (i_shape0 _ _ Hc) as (Hlog&Hlen&Hiv).
+      unfold initpart, cb_begin in *; cbn [log ndel regat gotinit initv]. rewrite Fi3, Fi4 in *. simpl in *.
+      rewrite Hlog. try subst cur. repeat split; auto.
+    - c_wid_same I t c Ht.
+    - (* incb *) csplit c; inj; [|c_incb_other I t Ht].
+      destruct (i_incb0 _ _ Hc) as (Hle&_&Hin).
+      assert (Hz : incb b = 0).
+      { destruct (Nat.eq_dec (incb b) 1) as [E|]; [|lia]. specialize (Hin _ Fe2 E). rewrite Ht in Hin. simpl in Hin. contradiction. }
+      simpl. repeat split; try lia; try congruence.
+      intros t1 E _. rewrite Fe2 in E; inj. rewrite updf_same. simpl. auto.
+    - (* flags *) csplit c; inj; [|eauto].
+      destruct (i_incb0 _ _ Hc) as (Hle&_&Hin).
+      assert (Hz : incb b = 0).
+      { destruct (Nat.eq_dec (incb b) 1) as [E|]; [|lia]. specialize (Hin _ Fe2 E). rewrite Ht in Hin. simpl in Hin. contradiction. }
+      destruct (i_flags0 _ _ Hc) as (Hov&Hla&Hur&Hrt).
+      simpl. rewrite Hov, Hla, Hz. simpl.
+      destruct (unsub_ret b) eqn:E; auto. specialize (Hur eq_refl). congruence.
+    - (* sinit *) tsplit t; [discriminate|]. csplit c; [excl I Hc Fe2|]. eauto.
+    - csplit c; inj; simpl; c_alive2 I t Ht.
+  Qed.
+
+  Lemma pres_s_cb_end s0 s t c b :
+    Inv s0 s -> thr s t = SInCb c -> cbs s c = Some b ->
+    Inv s0 (set_thr S D W R (set_cb S D W R s c (cb_end S D b)) t (SUnlock c)).
+  Proof.
+    intros I Ht Hc. start0 I t Ht. rewrite Hc in Fe1; injection Fe1 as <-. start1.
+    all: try solve [go I Ht t c]. all: try solve [c_ret I t c Ht Hc]. all: try solve [c_wret I t c Ht Hc]. all: rest I t Ht. all: try solve [c_live2 I t c Ht].
+    - c_wid_same I t c Ht.
+    - (* incb *) csplit c; inj; [|c_incb_other I t Ht].
+      destruct (i_incb0 _ _ Hc) as (?&?&?). simpl. repeat split; try lia; try congruence.
+    - (* noinit2 *) tsplit t.
+      + injection H as <-. rewrite ?updf_same in *. inj. simpl in *. pose proof (i_sincb0 _ _ _ Ht Hc). congruence.
+      + csplit c; [excl I Hc Fe2|]. eauto.
+    - csplit c; inj; simpl; c_alive2 I t Ht.
+  Qed.
+
+  Lemma pres_s_unlock s0 s t c b :
+    Inv s0 s -> thr s t = SUnlock c -> cbs s c = Some b ->
+    Inv s0 (set_thr S D W R (set_cb S D W R s c (cb_unlock_return S D b)) t Idle).
+  Proof.
+    intros I Ht Hc. start0 I t Ht. rewrite Hc in Fe1; injection Fe1 as <-. start1.
+    all: try solve [go I Ht t c]. all: try solve [c_ret I t c Ht Hc]. all: try solve [c_wret I t c Ht Hc]. all: rest I t Ht. all: try solve [c_live2 I t c Ht].
+    - c_wid_same I t c Ht.
+    - (* incb *) csplit c; inj; [|c_incb_other I t Ht].
+      destruct (i_incb0 _ _ Hc) as (Hle&_&Hin).
+      assert (Hz : incb b = 0).
+      { destruct (Nat.eq_dec (incb b) 1) as [E|]; [|lia]. specialize (Hin _ Fe2 E). rewrite Ht in Hin. simpl in Hin. contradiction. }
+      simpl. repeat split; try lia; try congruence.
+    - (* sub *) tsplit t; [simpl in *; contradiction|]. csplit c.
+      + exfalso. destruct (i_exec0 t0 c) as (?&X&Y&?).
+        { destruct (thr s t0); simpl in *; auto; contradiction. }
+        rewrite Hc in X; injection X as <-. congruence.
+      + eauto.
+    - csplit c; inj; simpl; c_alive2 I t Ht.
+  Qed.
+
+  Lemma pres_u_remove s0 s t c b :
+    Inv s0 s -> thr s t = Idle -> cbs s c = Some b -> returned b = true ->
+    Inv s0 (set_thr S D W R (set_reg S D W R s (remove_nat c (reg s))) t (UMark c)).
+  Proof.
+    intros I Ht Hc Hr. start I t Ht.
+    all: try solve [go I Ht t c]. all: rest I t Ht.
+    - (* live *) apply in_remove_nat in H0 as [H0 ?]. eapply i_live0; eauto.
+      apply (all_thr_frame (fun q => In c0 (pend_of q)) _ t _ H1). rewrite Ht. simpl. tauto.
+    - apply nodup_remove_nat; auto.
+    - apply in_remove_nat in H as [H ?]. eauto.
+    - (* umark *) rewrite in_remove_nat. tsplit t.
+      + injection H as <-. split; [eauto|]. intros [_ X]; apply X; reflexivity.
+      + destruct (i_umark0 _ _ H) as [? ?]. split; auto. tauto.
+    - rewrite in_remove_nat. intros [? ?]. eapply i_unsubd0; eauto.
+    - (* alive *) rewrite in_remove_nat. destruct (i_alive0 _ _ H) as [|[|[t1 Hx]]]; auto.
+      + destruct (Nat.eq_dec c0 c) as [->|]; [|tauto]. right; right. exists t. rewrite updf_same. auto.
+      + right; right. exists t1. rewrite updf_other; auto. intros ->. congruence.
+  Qed.
+
+  Lemma pres_u_mark s0 s t c b :
+    Inv s0 s -> thr s t = UMark c -> cbs s c = Some b -> exec b = None ->
+    Inv s0 (set_thr S D W R (set_cb S D W R s c (cb_mark S D b)) t Idle).
+  Proof.
+    intros I Ht Hc He. start I t Ht.
+    all: try solve [go I Ht t c]. all: try solve [c_ret I t c Ht Hc]. all: try solve [c_wret I t c Ht Hc]. all: rest I t Ht. all: try solve [c_live2 I t c Ht].
+    - c_wid_same I t c Ht.
+    - (* incb *) csplit c; inj; [|c_incb_other I t Ht].
+      destruct (i_incb0 _ _ Hc) as (?&?&?). simpl. repeat split; intros; auto; try lia; try congruence.
+    - csplit c; inj; simpl; auto. c_alive2 I t Ht.
+  Qed.
+
+  Lemma rest_in_pend (q : pc) c : In c (rest_of q) -> In c (pend_of q).
+  Proof. destruct q; simpl; auto. Qed.
+
+  (* body of updateValue / apply / replace without a notification *)
+  Lemma pres_w_update_none s0 s t w :
+    Inv s0 s -> thr s t = WUpdate w -> w_delta (wr w (val s)) = None ->
+    Inv s0 (mkSt S D W R (w_new (wr w (val s))) (if w_bump (wr w (val s)) then Datatypes.S (uid s) else uid s)
+                 (ord s) None (reg s) (cbs s) (updf (thr s) t WEnd) (hist s) (rets s ++ [w_ret (wr w (val s))])).
+  Proof.
+    intros I Ht Hd. start I t Ht.
+    all: try solve [go I Ht t 0]. all: rest I t Ht.
+    - rewrite wr_nodelta; auto.
+    - pose proof (i_lu0 _ _ H). destruct (w_bump (wr w (val s))); lia.
+    - tsplit t; [simpl in *; discriminate|wid_other I Fo].
+  Qed.
+
+  Lemma pres_w_update_some s0 s t w d :
+    Inv s0 s -> thr s t = WUpdate w -> w_delta (wr w (val s)) = Some d ->
+    Inv s0 (mkSt S D W R (w_new (wr w (val s))) (if w_bump (wr w (val s)) then Datatypes.S (uid s) else uid s)
+                 (ord s) None (reg s) (cbs s)
+                 (updf (thr s) t (WLoop (if w_bump (wr w (val s)) then Datatypes.S (uid s) else 0) d (reg s)))
+                 (hist s ++ [d]) (rets s ++ [w_ret (wr w (val s))])).
+  Proof.
+    intros I Ht Hd. start I t Ht.
+    all: try solve [go I Ht t 0].
+    - rewrite (wr_delta _ _ _ Hd). rewrite fold_left_app. simpl. congruence.
+    - pose proof (i_lu0 _ _ H). destruct (w_bump (wr w (val s))); lia.
+    - (* shape *) destruct (i_shape0 _ _ H) as (Hlog&Hlen&Hiv).
+      rewrite seg_app_le by lia. rewrite firstn_app_le by lia. rewrite app_length. simpl. repeat split; auto. lia.
+    - (* pend *) tsplit t; [|pend_other I Fo]. simpl in *.
+      destruct (i_reg0 _ H) as [b Hb]. exists b. split; auto. rewrite app_length. simpl.
+      assert (regat b + ndel b = length (hist s)); [|lia].
+      eapply i_live0; eauto. intros t1 Hin. destruct (Nat.eq_dec t1 t) as [->|].
+      + rewrite Ht in Hin. simpl in Hin. auto.
+      + apply pend_holds_ord in Hin. apply i_ord0 in Hin. congruence.
+    - (* live *) exfalso. apply (H1 t). rewrite updf_same. simpl. auto.
+    - (* wid *) tsplit t; [|wid_other I Fo]. simpl in *. inj. split; [eauto|].
+      destruct (w_bump (wr w (val s))); auto. right. split; auto.
+      intros c b _ Hb. pose proof (i_lu0 _ _ Hb). lia.
+    - c_incb I t Ht.
+    - c_alive I t Ht.
+  Qed.
+
+  Lemma pres_s_reg s0 s t c trig :
+    Inv s0 s -> thr s t = SReg c trig -> cbs s c = None ->
+    Inv s0 (set_thr S D W R (set_vm S D W R (set_reg S D W R (set_cb S D W R s c (cb_new S D W R t s)) (reg s ++ [c])) None)
+                    t (SInit c trig (val s))).
+  Proof.
     intros I Ht Hc. start I t Ht.
-    all: try solve [go I Ht t c]. all: rest I t Ht. all: try solve [c_live2 I t c Ht].
-    Show.
-  Abort.
+    all: try solve [go I Ht t c]. all: try solve [c_ret I t c Ht Hc]. all: try solve [c_wret I t c Ht Hc].
+    - (* shape *) csplit c; inj; [|eauto]. unfold initpart. simpl. rewrite Nat.add_0_r. repeat split; auto.
+      rewrite firstn_all. auto.
+    - (* live *) csplit c; inj; simpl; [lia|]. apply in_app_iff in H0 as [H0|[?|[]]]; [|congruence].
+      eapply i_live0; eauto.
+      apply (all_thr_frame (fun q => In c0 (pend_of q)) _ t _ H1). rewrite Ht. simpl. tauto.
+    - apply nodup_snoc; auto. intros Hin. destruct (i_reg0 _ Hin). congruence.
+    - csplit c; [eauto|]. apply in_app_iff in H as [H|[?|[]]]; [eauto|congruence].
+    - (* wid *) tsplit t; [simpl in *; discriminate|].
+      destruct (i_wid0 _ _ _ H) as [Fh Fx]. split; auto. destruct Fx as [|[? Fx]]; auto. right. split; auto.
+      intros c1 b1 Hin Hb. csplit c; [|eauto].
+      exfalso. apply rest_in_pend in Hin. destruct (i_pend0 _ _ Hin) as (?&?&?). congruence.
+    - (* incb *) csplit c; inj; [|c_incb_other I t Ht]. simpl. repeat split; auto; intros; try lia; congruence.
+    - (* umark *) tsplit t; [discriminate|]. destruct (i_umark0 _ _ H) as [(b0&Hb0&?) ?].
+      csplit c; [congruence|]. split; [eauto|]. rewrite in_app_iff. simpl. intuition congruence.
+    - (* unsubd *) csplit c; inj; [simpl in *; discriminate|]. rewrite in_app_iff. simpl.
+      pose proof (i_unsubd0 _ _ H H0). intuition congruence.
+    - (* noinit2 *) tsplit t; [discriminate|]. csplit c; [|eauto].
+      exfalso. destruct (i_sub0 t0 c) as (?&?&?); [rewrite H; simpl; auto|congruence].
+    - (* sincb *) tsplit t; [discriminate|]. csplit c; [|eauto].
+      exfalso. destruct (i_sub0 t0 c) as (?&?&?); [rewrite H; simpl; auto|congruence].
+    - (* alive *) csplit c; inj; [left; rewrite in_app_iff; simpl; auto|].
+      rewrite in_app_iff.
+      destruct (i_alive0 _ _ H) as [|[|Hx]]; auto. right; right.
+      apply (ex_thr_frame (fun q => q = UMark c0) _ t _ Hx). rewrite Ht. congruence.
+    - (* wret *) tsplit t; [simpl in *; contradiction|]. csplit c; [|eauto].
+      exfalso. destruct (i_exec0 t0 c) as (?&?&?); [destruct (thr s t0); simpl in *; auto; contradiction|congruence].
+  Qed.
+
+  Theorem step_inv s0 s t ch s' : Inv s0 s -> step s t ch = Some s' -> Inv s0 s'.
+  Proof.
+    intros I H. unfold Model.step in H. destruct (thr s t) eqn:Ht.
+    - (* Idle *) destruct ch as [[w|c trig|c]|]; try discriminate.
+      + destruct (wskip w); [inj; apply pres_skip; auto|].
+        destruct (ord s) eqn:Ho; [discriminate|]. inj. apply pres_lock_ord; auto.
+      + destruct (vm s) eqn:Hv; [discriminate|]. destruct (cbs s c) eqn:Hc; [discriminate|]. inj.
+        apply pres_s_lock_vm; auto.
+      + destruct (cbs s c) eqn:Hc; [|discriminate]. destruct (returned c0) eqn:Hr; [|discriminate]. inj.
+        eapply pres_u_remove; eauto.
+    - destruct (vm s) eqn:Hv; [discriminate|]. inj. apply pres_w_lock_vm; auto.
+    - destruct (w_delta (wr w (val s))) eqn:Hd; inj.
+      + pose proof (pres_w_update_some s0 s t w d I Ht Hd) as P. destruct (w_bump (wr w (val s))); exact P.
+      + pose proof (pres_w_update_none s0 s t w I Ht Hd) as P. destruct (w_bump (wr w (val s))); exact P.
+    - destruct pend as [|c p].
+      + inj. eapply pres_w_loop_nil; eauto.
+      + destruct (cbs s c) eqn:Hc; [|discriminate]. destruct (exec c0) eqn:He; [discriminate|].
+        destruct (refuses S D c0 id) eqn:Hr; inj.
+        * eapply pres_w_refuse; eauto.
+        * eapply pres_w_lock; eauto.
+    - destruct (cbs s c) eqn:Hc; [|discriminate]. inj. eapply pres_w_begin; eauto.
+    - destruct (cbs s c) eqn:Hc; [|discriminate]. inj. eapply pres_w_cb_end; eauto.
+    - inj. apply pres_w_end; auto.
+    - destruct (cbs s c) eqn:Hc; [discriminate|]. inj. apply pres_s_reg; auto.
+    - destruct (cbs s c) eqn:Hc; [|discriminate]. destruct (nonzero cur || trig) eqn:Hn; inj.
+      + eapply pres_s_begin; eauto.
+      + eapply pres_s_noinit; eauto.
+    - destruct (cbs s c) eqn:Hc; [|discriminate]. inj. eapply pres_s_cb_end; eauto.
+    - destruct (cbs s c) eqn:Hc; [|discriminate]. inj. eapply pres_s_unlock; eauto.
+    - destruct (cbs s c) eqn:Hc; [|discriminate]. destruct (exec c0) eqn:He; [discriminate|]. inj.
+      eapply pres_u_mark; eauto.
+  Qed.
+
+  Theorem run_inv s0 sch : forall s, Inv s0 s -> Inv s0 (run sch s).
+  Proof.
+    induction sch as [|[t ch] r IH]; simpl; intros s I; auto.
+    destruct (step s t ch) eqn:E; auto. apply IH. eapply step_inv; eauto.
+  Qed.
+
+  Corollary reachable_inv s0 sch : Inv s0 (run sch (init S D W R s0)).
+  Proof. apply run_inv, inv_init. Qed.
 End Inv.
